@@ -135,7 +135,10 @@ def run(repo: Repo, rep: Report, tier: str) -> None:
     rep.floor("R01.3", 8)
     _r01_2(repo, rep)
     _r01_5(repo, rep)
-
+    # rules of sibling properties that are necessary conditions of this one as well (same rule ids)
+    from ..core.report import Only
+    from . import c09 as _c09
+    _c09.run(repo, Only(rep, {"R09.2"}), tier)
 
 # --------------------------------------------------------------------------- R01.2 sign domain
 def _r01_2(repo: Repo, rep: Report) -> None:
